@@ -85,17 +85,17 @@ ProbesC == <<W("/posts/author", <<>>), W("/posts/abc", <<>>), W("/posts/{id}/aut
 MethodsC == <<"GET", "HEAD", "POST", "DELETE", "PUT", "OPTIONS", "TRACE", "BOGUS">>
 
 \* ---------------- pool X: Handle / Remove with every kind of method list (C17, C08, C03)
-PatsX == {"/u/{id}/ab", "/u/{id}/ac", "/u/{id}", "/u/{name}", "/x", "/u/{id:\\d+}"}
+PatsX == {"/u/{id}/ab", "/u/{id}/ac", "/u/{id}", "/u/{name}", "/x", "/u/{id:\\d+}", "/u/{name}/a"}
 BadPatsX == {"/u/{}", "/u/{a}{b}", "/u/{a}/{a}", "", "/u/{:\\d+}", "/u/{a}/{-a}", "/u/{-a}/{a:\\d+}"}
 ListsX == {G, P, <<"GET", "BOGUS">>, <<"BOGUS", "GET">>, <<"HEAD">>, <<"POST", "OPTIONS">>, <<"TRACE">>, <<"GET", "GET">>, <<"GET", "POST">>, <<>>}
 HOpsX == {H(p, ms) : p \in PatsX, ms \in ListsX} \cup {H(p, G) : p \in BadPatsX}
-ROpsX == {Rm(p, ms) : p \in PatsX \ {"/u/{name}"}, ms \in {<<>>, G, <<"HEAD">>, <<"OPTIONS">>, <<"">>, <<"BOGUS">>, <<"TRACE">>, <<"POST", "GET">>}}
+ROpsX == {Rm(p, ms) : p \in PatsX \ {"/u/{name}", "/u/{name}/a"}, ms \in {<<>>, G, <<"HEAD">>, <<"OPTIONS">>, <<"">>, <<"BOGUS">>, <<"TRACE">>, <<"POST", "GET">>}}
 COpsX == {Cl(""), Cl("/u/{id}/a")}
 UOpsX == {}
 CfgsX == {Cfg(FALSE), Cfg(TRUE)}
-BasesX == {<<>>, <<H("/u/{id}/ab", G)>>, <<H("/u/{id}", GP), H("/x", G)>>}
+BasesX == {<<>>, <<H("/u/{id}/ab", G)>>, <<H("/u/{id}", GP), H("/x", G)>>, <<H("/u/{id}/ab", G), H("/u/{id}/ac", P)>>}
 ProbesX == <<W("/u/{id}/ab", [id |-> "7q"]), W("/u/{id}/ac", [id |-> "7q"]), W("/u/{id}", [id |-> "7q"]), W("/u/{name}", [name |-> "7q"]),
-             W("/x", <<>>), W("/u/{id:\\d+}", [id |-> "77"]),
+             W("/x", <<>>), W("/u/{id:\\d+}", [id |-> "77"]), W("/u/{name}/a", [name |-> "7q"]),
              A("/u/x/ac/ab"), A("/u/7q/a"), A("/u/7/ab/ab"), A("/u/"), A("/"), A(""), A("*")>>
 MethodsX == <<"GET", "HEAD", "POST", "OPTIONS", "TRACE", "BOGUS", "">>
 
